@@ -287,6 +287,24 @@ func init() {
 		return in.ts.BVi(-1, 64)
 	}
 	reg(indexByte, "internal/bytealg.IndexByte", "internal/bytealg.IndexByteString", "bytes.IndexByte", "strings.IndexByte")
+	reg(func(fr *frame, args []value) value { // Count / CountString(s, c byte) int
+		in := fr.in
+		var bs []*Term
+		switch a := args[0].(type) {
+		case []value:
+			for _, e := range a {
+				bs = append(bs, in.asTerm(e, "byte"))
+			}
+		default:
+			bs = in.strBytes(a)
+		}
+		c := in.asTerm(args[1], "byte")
+		n := in.ts.BV(0, 64)
+		for _, b := range bs {
+			n = in.ts.Bin(OpAdd, n, in.ts.Ite(in.ts.Eq(b, c), in.ts.BV(1, 64), in.ts.BV(0, 64)))
+		}
+		return n
+	}, "internal/bytealg.Count", "internal/bytealg.CountString")
 	reg(func(fr *frame, args []value) value {
 		in := fr.in
 		n := in.concOrFail(args[0], "MakeNoZero length")
@@ -338,6 +356,51 @@ func init() {
 		in := fr.in
 		return tuple{in.ts.BV(0, 64), iface{}}
 	}, "fmt.Printf", "fmt.Println", "fmt.Print", "fmt.Fprintf", "fmt.Fprintln", "fmt.Fprint")
+
+	// ---- NaCl secretbox, idealised: Seal(out, msg, nonce, key) = out ++ tag ++ msg with the 16-byte
+	// tag = nonce[8:24] xor key[0:16]; Open succeeds iff the tag matches (same nonce, same key)
+	sbTag := func(in *interp, nonce, key value) []*Term {
+		np, _ := nonce.(*value)
+		kp, _ := key.(*value)
+		if np == nil || kp == nil {
+			in.unsupported("secretbox with nil nonce/key")
+		}
+		na, ka := (*np).(array), (*kp).(array)
+		tag := make([]*Term, 16)
+		for i := range tag {
+			tag[i] = in.ts.Bin(OpBXor, in.asTerm(na[8+i], "nonce"), in.asTerm(ka[i], "key"))
+		}
+		return tag
+	}
+	reg(func(fr *frame, args []value) value {
+		in := fr.in
+		out, _ := args[0].([]value)
+		msg, _ := args[1].([]value)
+		for _, t := range sbTag(in, args[2], args[3]) {
+			out = append(out, t)
+		}
+		out = append(out, msg...)
+		in.steps += len(msg) / 8
+		return out
+	}, "golang.org/x/crypto/nacl/secretbox.Seal")
+	reg(func(fr *frame, args []value) value {
+		in := fr.in
+		out, _ := args[0].([]value)
+		box, _ := args[1].([]value)
+		if len(box) < 16 {
+			return tuple{[]value(nil), in.ts.False}
+		}
+		ok := in.ts.True
+		for i, t := range sbTag(in, args[2], args[3]) {
+			ok = in.ts.And(ok, in.ts.Eq(in.asTerm(box[i], "box"), t))
+		}
+		if ok.IsFalse() || (!ok.IsTrue() && !in.branch(ok, "secretbox-open")) {
+			return tuple{[]value(nil), in.ts.False}
+		}
+		out = append(out, box[16:]...)
+		in.steps += len(box) / 8
+		return tuple{out, in.ts.True}
+	}, "golang.org/x/crypto/nacl/secretbox.Open")
 
 	// ---- reflect: only as an opaque token (e.g. reflect.TypeOf(x) handed to a logger) ----
 	reg(func(fr *frame, args []value) value { return opaque{"reflect.TypeOf"} }, "reflect.TypeOf", "reflect.ValueOf")
